@@ -81,6 +81,18 @@ class Body:
                 self.blocks[cur].append(s)
 
 
+def balanced(s):
+    d = 0
+    for c in s:
+        if c in "([{":
+            d += 1
+        elif c in ")]}":
+            d -= 1
+            if d < 0:
+                return False
+    return d == 0
+
+
 def split_top(s, sep=","):
     """Splits at top-level separators (ignoring those nested in brackets/quotes)."""
     out, depth, cur, inq = [], 0, "", False
@@ -159,6 +171,18 @@ INT_TYPES = {"u8": (8, False), "u16": (16, False), "u32": (32, False), "u64": (6
 
 def bvconst(v, w):
     return "(_ bv%d %d)" % (v % (1 << w), w)
+
+
+def lit(term):
+    """Integer value of a literal bit-vector term, else None."""
+    m = re.match(r"^\(_ bv(\d+) (\d+)\)$", term or "")
+    return int(m.group(1)) if m else None
+
+
+def fold_bool(term):
+    if term in ("true", "false"):
+        return term == "true"
+    return None
 
 
 class Val:
@@ -256,22 +280,94 @@ class Exec:
         text = text.strip()
         if text.startswith("const "):
             return self.const(text[6:], body)
-        m = re.match(r"^(?:copy|move) \((_\d+)\.(\d+): .*\)$", text)
+        m = re.match(r"^(?:copy|move) (.*)$", text)
         if m:
-            base = env.get(m.group(1))
-            if base is None or base.kind != "tuple":
-                raise Unsupported("field of non-tuple: " + text)
-            return base.items[int(m.group(2))]
-        m = re.match(r"^(?:copy|move) (_\d+)$", text)
-        if m:
-            if m.group(1) not in env:
-                raise Unsupported("read of unassigned local " + text)
-            return env[m.group(1)]
+            return self.read_place(m.group(1).strip(), env, body)
         raise Unsupported("operand: " + text)
+
+    # ---- places ---------------------------------------------------------
+    def parse_place(self, text):
+        """Returns (base_local, [projection...]) for `_N`, `(*P)`, `(P.k: T)`, `(P as V)`, `P[_i]`."""
+        text = text.strip()
+        m = re.match(r"^(_\d+)$", text)
+        if m:
+            return m.group(1), []
+        if text.endswith("]") and not text.startswith("["):
+            depth = 0
+            for i in range(len(text) - 1, -1, -1):
+                if text[i] == "]":
+                    depth += 1
+                elif text[i] == "[":
+                    depth -= 1
+                    if depth == 0:
+                        base, proj = self.parse_place(text[:i])
+                        return base, proj + [("index", text[i + 1:-1].strip())]
+        if text.startswith("(") and text.endswith(")"):
+            inner = text[1:-1].strip()
+            if inner.startswith("*"):
+                base, proj = self.parse_place(inner[1:])
+                return base, proj + [("deref",)]
+            m = re.match(r"^(.*) as (\w+)$", inner)
+            if m and balanced(m.group(1)):
+                base, proj = self.parse_place(m.group(1))
+                return base, proj + [("variant", m.group(2))]
+            parts = split_top(inner, ":")
+            if len(parts) >= 2:
+                head = parts[0].strip()
+                ty = ":".join(parts[1:]).strip()
+                k = head.rfind(".")
+                if k > 0 and balanced(head[:k]):
+                    base, proj = self.parse_place(head[:k])
+                    return base, proj + [("field", head[k + 1:], ty)]
+        raise Unsupported("place: " + text)
+
+    def read_place(self, text, env, body):
+        base, proj = self.parse_place(text)
+        if base not in env:
+            raise Unsupported("read of unassigned local %s in %s" % (base, text))
+        v = env[base]
+        for p in proj:
+            if p[0] == "field":
+                k = p[1]
+                if v.kind == "tuple":
+                    v = v.items[int(k)]
+                elif v.kind == "adt" and isinstance(v.payload, dict):
+                    keys = list(v.payload)
+                    v = v.payload[k] if k in v.payload else v.payload[keys[int(k)]] if k.isdigit() and int(k) < len(keys) else \
+                        (list(v.payload.values())[0] if v.ctor.endswith("TransmuteVoucher") else None)
+                    if v is None:
+                        raise Unsupported("field %s of %r" % (k, text))
+                elif v.kind == "adt":
+                    v = v.payload
+                elif v.kind == "ref":
+                    v = Val("ref", path=v.path + (("f", k),), ty=p[2])
+                else:
+                    raise Unsupported("field of %r in %s" % (v, text))
+            elif p[0] == "variant":
+                if v.kind != "adt" or v.ctor != p[1]:
+                    raise Unsupported("downcast of %r to %s" % (v, p[1]))
+            elif p[0] == "deref":
+                if v.kind != "ref":
+                    raise Unsupported("deref of %r" % (v,))
+            elif p[0] == "index":
+                idx = self.read_place(p[1], env, body)
+                if v.kind != "ref":
+                    raise Unsupported("index of %r" % (v,))
+                v = Val("ref", path=v.path + (("i", idx.term),), ty="")
+            else:
+                raise Unsupported("projection")
+        return v
 
     # ---- rvalues ------------------------------------------------------
     def rvalue(self, dst, text, env, body):
         text = text.strip()
+        m = re.match(r"^(.*) as (.*) \(PointerCoercion\(.*\)\)$", text)
+        if m:
+            v = self.operand(m.group(1), env, body)
+            mm = re.search(r"; (\d+)\]", getattr(v, "ty", "") or "")
+            if v.kind == "ref" and mm:
+                v = Val("ref", path=v.path, ty=v.ty, arraylen=int(mm.group(1)))
+            return v
         m = re.match(r"^(\w+)\((.*)\)$", text)
         BIN = {"Add": "bvadd", "Sub": "bvsub", "Mul": "bvmul", "BitAnd": "bvand", "BitOr": "bvor", "BitXor": "bvxor"}
         CMP = {"Lt": ("bvslt", "bvult"), "Le": ("bvsle", "bvule"), "Gt": ("bvsgt", "bvugt"), "Ge": ("bvsge", "bvuge")}
@@ -280,6 +376,13 @@ class Exec:
             op = m.group(1)
             a, b = [self.operand(x, env, body) for x in split_top(m.group(2))]
             if a.kind == "bool" and b.kind == "bool":
+                fa, fb = fold_bool(a.term), fold_bool(b.term)
+                if op == "BitAnd" and (fa is False or fb is False):
+                    return mk_bool("false")
+                if op == "BitAnd" and fa is True:
+                    return b
+                if op == "BitAnd" and fb is True:
+                    return a
                 if op == "BitAnd":
                     return mk_bool("(and %s %s)" % (a.term, b.term))
                 if op == "BitOr":
@@ -296,6 +399,15 @@ class Exec:
             if op in BIN or op in ("AddUnchecked", "SubUnchecked"):
                 f = BIN.get(op, "bvadd" if op.startswith("Add") else "bvsub")
                 return mk_int("(%s %s %s)" % (f, a.term, b.term), w, s)
+            la, lb = lit(a.term), lit(b.term)
+            if la is not None and lb is not None and op in ("Eq", "Ne", "Lt", "Le", "Gt", "Ge"):
+                if s:
+                    sa = la - (1 << w) if la >= (1 << (w - 1)) else la
+                    sb_ = lb - (1 << w) if lb >= (1 << (w - 1)) else lb
+                else:
+                    sa, sb_ = la, lb
+                r = {"Eq": sa == sb_, "Ne": sa != sb_, "Lt": sa < sb_, "Le": sa <= sb_, "Gt": sa > sb_, "Ge": sa >= sb_}[op]
+                return mk_bool("true" if r else "false")
             if op in CMP:
                 return mk_bool("(%s %s %s)" % (CMP[op][0 if s else 1], a.term, b.term))
             if op == "Eq":
@@ -351,9 +463,43 @@ class Exec:
             return Val("tuple", items=items)
         if text.startswith("copy ") or text.startswith("move ") or text.startswith("const "):
             return self.operand(text, env, body)
-        m = re.match(r"^&(?:mut )?(.*)$", text)
+        m = re.match(r"^&(?:mut |raw const |raw mut )?(.*)$", text)
         if m:
-            return Val("opaque", desc="ref " + m.group(1))
+            try:
+                base, proj = self.parse_place(m.group(1))
+            except Unsupported:
+                return Val("opaque", desc="ref " + m.group(1))
+            if base in env and env[base].kind == "ref":
+                v = self.read_place(m.group(1), env, body)
+                if v.kind == "ref":
+                    return v
+            return Val("ref", path=(("local", body.name, base),) + tuple(("p", repr(x)) for x in proj), ty="", target=base)
+        m = re.match(r"^discriminant\((.*)\)$", text)
+        if m:
+            v = self.read_place(m.group(1), env, body)
+            if v.kind != "adt":
+                raise Unsupported("discriminant of %r" % (v,))
+            table = {"Ok": 0, "Err": 1, "None": 0, "Some": 1, "Continue": 0, "Break": 1, "Poisoned": 0, "WouldBlock": 1}
+            if v.ctor not in table:
+                raise Unsupported("discriminant of ctor " + v.ctor)
+            return mk_int(bvconst(table[v.ctor], 64), 64, True)
+        m = re.match(r"^PtrMetadata\((.*)\)$", text)
+        if m:
+            v = self.operand(m.group(1), env, body)
+            n = getattr(v, "arraylen", None)
+            if n is None:
+                raise Unsupported("PtrMetadata of %r" % (v,))
+            return mk_int(bvconst(n, 64), 64, False)
+        m = re.match(r"^(.*) as (.*) \(PointerCoercion\(.*\)\)$", text)
+        if m:
+            v = self.operand(m.group(1), env, body)
+            mm = re.search(r"; (\d+)\]", getattr(v, "ty", "") or "")
+            if v.kind == "ref" and mm:
+                v = Val("ref", path=v.path, ty=v.ty, arraylen=int(mm.group(1)))
+            return v
+        m = re.match(r"^std::sync::atomic::Ordering::(\w+)$", text)
+        if m:
+            return Val("enumconst", name=m.group(1))
         m = re.match(r"^(\w[\w:<>, ]*) \{ (.*) \}$", text)
         if m:
             fields = {}
@@ -401,6 +547,20 @@ class Exec:
             if m:
                 v = self.operand(m.group(1), env, body)
                 arms = [a.strip() for a in m.group(2).split(",")]
+                concrete = None
+                if v.kind == "int" and lit(v.term) is not None:
+                    concrete = lit(v.term)
+                elif v.kind == "bool" and fold_bool(v.term) is not None:
+                    concrete = 1 if fold_bool(v.term) else 0
+                if concrete is not None:
+                    target = None
+                    for a in arms:
+                        k, tgt = [x.strip() for x in a.split(":")]
+                        if k != "otherwise" and int(k) == concrete:
+                            target = tgt
+                    if target is None:
+                        target = [a.split(":")[1].strip() for a in arms if a.split(":")[0].strip() == "otherwise"][0]
+                    return self._walk(body, target, env, cond, paths, visits, ctx)
                 taken = []
                 for a in arms:
                     k, tgt = [x.strip() for x in a.split(":")]
@@ -422,6 +582,13 @@ class Exec:
             m = re.match(r"^assert\((!?)(.*?), \"(.*?)\".*\) -> \[success: (bb\d+), unwind.*\];$", s)
             if m:
                 v = self.operand(m.group(2), env, body)
+                fv = fold_bool(v.term)
+                if fv is not None:
+                    holds = (not fv) if m.group(1) else fv
+                    if holds:
+                        return self._walk(body, m.group(4), env, cond, paths, visits, ctx)
+                    paths.append(Path(cond, "panic", note=m.group(3), events=list(ctx)))
+                    return
                 ok = "(not %s)" % v.term if m.group(1) else v.term
                 paths.append(Path(cond + ["(not %s)" % ok], "panic", note=m.group(3), events=list(ctx)))
                 return self._walk(body, m.group(4), env, cond + [ok], paths, visits, ctx)
@@ -441,7 +608,7 @@ class Exec:
                     e2[dst] = val
                     self._walk(body, nxt, e2, cond + extra, paths, visits, nctx)
                 return
-            m = re.match(r"^(_\d+) = (.*?)\((.*)\) -> (?:unwind.*|\[.*\]);$", s)
+            m = re.match(r"^(_\d+) = (.*?)\((.*)\) -> (?:unwind.*|\[.*\]|bb\d+);$", s)
             if m:
                 # diverging call (panic helpers)
                 paths.append(Path(cond, "panic", note="diverging call " + m.group(2), events=list(ctx)))
